@@ -188,9 +188,18 @@ def run(ctx: Ctx) -> Result:
         ctx, [make_factory(s) for s in specs],
         max_states=ctx.pick(4000, 40000), max_seconds=ctx.pick(300, 2400))
     counts = COUNTS.collect(ctx.scratch)
-    if not st.error and not st.violations:
+    # (violations cut searches short: the guards only make sense without
+    # them; the known finding is confined to its own tiny entry)
+    others = [v for v in st.violations if v['signature']
+              != 'removed-preparing-member-job-still-submitted']
+    if not st.error and not others:
         need = ['member:inner:inactive', 'member:start:live',
                 'inner_member_prepared', 'start_member_started_at_once']
+        if ctx.tier == 'thorough':
+            need += ['trigger_while_paused', 'trigger_with_held_member',
+                     'start_member_queued_queue_full', 'member:start:failed']
+            need += [f'trigger:size{n}:flow={f}' for n, f in
+                     ((3, 'all'), (2, 'new'), (2, 'none'), (2, '2'))]
         missing = [k for k in need if not counts.get(k)]
         if missing:
             raise HarnessError(
